@@ -199,11 +199,11 @@ func (r *runner) listener(k int) func([]byte, int32) {
 			r.violate("delivery", fmt.Sprintf("listener %d was called or still being called (% X) after its stop function had returned", k, b))
 			return
 		}
-		if len(b) != 3 || b[0]&0xF0 != 0x90 || b[1] > 127 || b[2] > 127 {
+		sender, seq, okMsg := parseTestMsg(b)
+		if !okMsg {
 			r.violate("delivery", fmt.Sprintf("listener %d got % X, which was never sent", k, b))
 			return
 		}
-		sender, seq := int(b[0]&0x0F), int(b[1])<<7|int(b[2])
 		rec := r.msgs[sender<<14|seq]
 		if rec == nil {
 			r.violate("delivery", fmt.Sprintf("listener %d got message sender=%d seq=%d, which was never sent", k, sender, seq))
@@ -242,6 +242,35 @@ func (r *runner) listener(k int) func([]byte, int32) {
 // send one message from `sender`.  mode 0: the lifecycle is at rest; 1: the listening state changes while the
 // message is under way (it may or may not be delivered); 2: the out port is being closed and reopened
 // meanwhile (Send may succeed or report the closed port, and the message may or may not be delivered)
+// testMsg: the message that identifies (sender, seq): a note-on, or (two out of three) a sysex of 6..2006 bytes whose
+// padding is a function of seq, so that a damaged or spliced line cannot pass for a message that was sent
+var testPad = []int{0, 10, 40, 56, 57, 58, 59, 60, 61, 62, 122, 123, 124, 125, 200, 509, 1000, 2000}
+
+func testMsg(sender, seq int) []byte {
+	if seq%3 == 0 {
+		return []byte{0x90 | byte(sender), byte(seq >> 7), byte(seq & 0x7F)}
+	}
+	n := testPad[(sender*7+seq*13)%len(testPad)]
+	m := make([]byte, 0, n+6)
+	m = append(m, 0xF0, 0x7D, byte(sender), byte(seq>>7), byte(seq&0x7F))
+	for i := 0; i < n; i++ {
+		m = append(m, byte((i*31+seq)&0x7F))
+	}
+	return append(m, 0xF7)
+}
+
+func parseTestMsg(b []byte) (sender, seq int, ok bool) {
+	if len(b) == 3 && b[0]&0xF0 == 0x90 && b[1] <= 127 && b[2] <= 127 {
+		sender, seq = int(b[0]&0x0F), int(b[1])<<7|int(b[2])
+		return sender, seq, seq%3 == 0
+	}
+	if len(b) >= 6 && b[0] == 0xF0 && b[1] == 0x7D && b[2] < 16 && b[3] <= 127 && b[4] <= 127 {
+		sender, seq = int(b[2]), int(b[3])<<7|int(b[4])
+		return sender, seq, seq%3 != 0 && string(b) == string(testMsg(sender, seq))
+	}
+	return 0, 0, false
+}
+
 func (r *runner) send(sender int, mode int) {
 	r.mu.Lock()
 	seq := r.nextSeq[sender]
@@ -262,7 +291,7 @@ func (r *runner) send(sender int, mode int) {
 		vd.Expected++
 	}
 	vdMu.Unlock()
-	err := r.out.Send([]byte{0x90 | byte(sender), byte(seq >> 7), byte(seq & 0x7F)})
+	err := r.out.Send(testMsg(sender, seq))
 	got := errClass(err)
 	if mode == 2 {
 		if got == "closed" {
@@ -385,7 +414,7 @@ func (r *runner) step(op string, g *rng) bool {
 		r.stopped = append(r.stopped, false)
 		r.mu.Unlock()
 		var stop func()
-		if !r.call("in.Listen", func() { stop, err = r.in.Listen(r.listener(k), drivers.ListenConfig{}) }) {
+		if !r.call("in.Listen", func() { stop, err = r.in.Listen(r.listener(k), drivers.ListenConfig{SysEx: true}) }) {
 			return false
 		}
 		r.record("l", errClass(err))
@@ -455,7 +484,7 @@ func (r *runner) step(op string, g *rng) bool {
 				r.mu.Lock()
 				r.stopped = append(r.stopped, false)
 				r.mu.Unlock()
-				stop, e := r.in.Listen(r.listener(nk), drivers.ListenConfig{})
+				stop, e := r.in.Listen(r.listener(nk), drivers.ListenConfig{SysEx: true})
 				r.record("l", errClass(e))
 				if e != nil || stop == nil {
 					r.violate("contract", fmt.Sprintf("in.Listen after stop returned %v", e))
@@ -684,7 +713,7 @@ func runNoStart(drv *midicatdrv.Driver, g *rng, fifoBase string) {
 			probe("in.Open", r.in.Open, "fail") &&
 			probe("out.Open", r.out.Open, "fail") &&
 			probe("out.Open", r.out.Open, "fail") &&
-			probe("in.Listen", func() error { _, e := r.in.Listen(func([]byte, int32) {}, drivers.ListenConfig{}); return e }, "closed") &&
+			probe("in.Listen", func() error { _, e := r.in.Listen(func([]byte, int32) {}, drivers.ListenConfig{SysEx: true}); return e }, "closed") &&
 			probe("out.Send", func() error { return r.out.Send([]byte{0x90, 1, 1}) }, "closed") &&
 			probe("in.Close", r.in.Close, "ok") &&
 			probe("out.Close", r.out.Close, "ok")
